@@ -228,7 +228,8 @@ def stage_oracle(ctx: Ctx, progs):
             spans = [(k, span_of(k.a)) for k in kids]
             spans = [(k, s) for k, s in spans if s]
             for (k1, s1), (k2, s2) in zip(spans, spans[1:]):
-                if s1[0] > s2[0]:
+                if s1[0] > s2[0] and not (isinstance(f.a, ast.JoinedStr) and isinstance(k1.a, ast.Constant) and isinstance(k2.a, ast.FormattedValue) and s2[0] <= s1[0] and s1[1] <= s2[1]):
+                    # (the text of a self-documenting field `{e=}` is a Constant that CPython lists in front of the field it lies inside)
                     bad = ('siblings out of text order', type(f.a).__name__, type(k1.a).__name__, s1, type(k2.a).__name__, s2)
             # next()/prev() agree with the one-level walk and are mutually inverse
             seq = []
@@ -374,6 +375,13 @@ def nav_zoo():
     out.append('x[a]\nx[a:b]\nx[:b]\nx[a:]\nx[::c]\nx[a:b:c]\nx[a, b:c]\nx[:]\n*a, b = c\na = b if c else d\n(a := b)\na = -b\na = b ** c\nprint(*a)\nx = a.b.c\nx = ()\nx = []\nx = {}\n')
     out.append('match a:\n  case 1: pass\n  case b: pass\n  case _: pass\n  case b as c: pass\n  case [a, *b]: pass\n  case [*_]: pass\n  case {1: a}: pass\n  case {**r}: pass\n  case {1: a, **r}: pass\n'
                '  case C(): pass\n  case C(a): pass\n  case C(k=a): pass\n  case C(a, b, k=c, j=d): pass\n  case a | b: pass\n  case None if g: pass\n  case a.b: pass\n  case -1 | 2+3j: pass\n  case (a): pass\n')
+    # layouts where the column order of siblings is the reverse of (or unrelated to) their source order
+    out.append('call(\n        a,\n      *b,\n    k=1,\n  *c,\n j=2,\n)\ncall(\n a,\n  *b,\n   k=1,\n    *c,\n     j=2)\ncall(\n    a,\n    *b,\n    k=1,\n)\ncall(k=1,\n *b)\ncall(*b,\n k=1)\n'
+               'class K(\n        A,\n      *b,\n    m=M,\n  **kw\n): pass\nclass K2(\n m=M,\n  *b,\n   n=N): pass\n')
+    out.append('def f(\n        a,\n      /,\n     b=1,\n    *c,\n   d,\n  **e\n): pass\ndef g(\n a=1,\n  /,\n   b=2,\n    *,\n     d=3,\n      **e): pass\n'
+               'h = lambda \\\n   a, \\\n  *b, \\\n c=1: 0\nx = {\n      **a,\n    b: c,\n  **d\n}\ny = {\n a: b,\n  **c,\n   d: e}\n')
+    out.append('match v:\n  case C(\n       a,\n      k=b,\n     j=c): pass\n  case {\n      1: a,\n     2: b,\n    **r}: pass\n  case [\n      a,\n     *b,\n    c]: pass\n'
+               'z = f"{a!r:>{w}}{b:{c}{d}}" f"{e=}"\nw = (a <\n b\n   <= c)\nwith (\n      a as b,\n    c,\n  d as e\n): pass\n')
     return out
 
 def seqs(f, m):
